@@ -321,7 +321,7 @@ def r06i(F):
 	out.append(Result('06.i', ok, ('ok:' if ok else 'stale-index:') + 'splice-htlc-output-index-remapped', 'renegotiated_funding rewrites each non-dust HTLC\'s transaction_output_index to its index in the new funding\'s counterparty commitment, inside the loop over the zipped HTLC lists (found %s)%s' % (seen, '' if ok else ' - with the old indices a revoked post-splice commitment fails the output/amount consistency test and no HTLC output is punished'), len(ws), where=F.where(fn)))
 	tfn = PKG + 'PackageTemplate::get_height_timer'
 	tu = F.func(tfn)
-	mins = tu.call_blocks(lambda p: p.endswith('cmp::min'))
+	mins = tu.call_blocks(lambda p: p.endswith('cmp::min') or p.endswith('Ord::min'))
 	maxs = tu.call_blocks(lambda p: p.endswith('cmp::max') or p.endswith('Ord::max'))
 	vs = enum_variants(F, PKG + 'PackageSolvingData')
 	arms_without = []
